@@ -269,6 +269,9 @@ def inline_new_helpers(facts, reference_functions):
                 continue
             callers = []
             hir_ok = not _has_ret(hb["body"])
+            if not hir_ok:
+                # both views or none: a helper with an early return stays a function of its own in the HIR view, so it stays one in MIR too
+                continue
             for b in list(facts.hir):
                 if b is hb or b["crate"] not in (VISITOR_CRATE, PLUGIN_CRATE):
                     continue
